@@ -101,6 +101,27 @@ def task_grid(ctx, cfg, used=False):
               lambda x: (grid.inverse_laplacian(x) * (~zm | (np.arange(ms[1]) >= L)[None, :]) * 1.0, jnp.zeros(ms)), [xall], sp_b3,
               select=[(ll == 0) | (np.arange(ms[1]) >= L)[None, :]], exact=True, twin=False, config=conf)
 
+  # ---- F. leading (batch / level) axes: every operator applied to a stacked field equals the operator applied slice by slice (exact)
+  if M <= 4:
+    lead = (2, 2)
+    sp_f = Space(bits=14)
+    xb = PolyArr.variables(sp_f, 'xb', lead + ms); yb = PolyArr.variables(sp_f, 'yb', lead + ms)
+
+    def ops1(x, y):
+      out = [grid.d_dlon(x), grid.cos_lat_d_dlat(x), grid.sec_lat_d_dlat_cos2(x), grid.laplacian(x), grid.inverse_laplacian(x), grid.clip_wavenumbers(x),
+             grid.clip_wavenumbers(x, n=2) if L > 2 else grid.clip_wavenumbers(x)]
+      out += list(grid.cos_lat_grad(x)) + list(grid.cos_lat_grad(x, clip=False)) + [grid.div_cos_lat((x, y)), grid.curl_cos_lat((x, y), clip=False)] + list(grid.k_cross((x, y)))
+      if cfg.get('spacing', 'gauss') != 'equiangular_with_poles':
+        out += list(sh.get_cos_lat_vector(x, y, grid))
+      return tuple(out)
+
+    def batched(x, y):
+      whole = ops1(x, y)
+      parts = [[ops1(x[i, j], y[i, j]) for j in range(lead[1])] for i in range(lead[0])]
+      sl = tuple(jnp.stack([jnp.stack([parts[i][j][k] for j in range(lead[1])]) for i in range(lead[0])]) for k in range(len(whole)))
+      return whole, sl
+    prove_close(ctx, 'F.leading_axes_act_slice_by_slice', batched, [xb, yb], sp_f, exact=True, twin=False, config=dict(conf, lead=list(lead)))
+
   # ---- C. winds
   D = quad_degree(cfg)
   l_w = min(L - 2, D // 2)
